@@ -6,7 +6,7 @@
                   dead / caller-allocated / handed-over block
    chunks_ok    = every chunk stored through the jchuff.c STORE_BUFFER protocol is < BUFSIZE bytes *)
 From Coq Require Import List ZArith.
-From LJT Require Import gen.GenDest model.Dest proofs.DestProofs.
+From LJT Require Import gen.GenDest model.Dest model.WorstCase proofs.DestProofs proofs.WorstCaseProofs.
 Import ListNotations.
 Local Open Scope Z_scope.
 
@@ -89,3 +89,15 @@ Print Assumptions C13_chunk_bound_sharp.
 Theorem C13_icc_extra : forall len, 0 <= len -> icc_bytes len = len + 18 * ((len + 65518) / 65519).
 Proof. exact icc_extra_all. Qed.
 Print Assumptions C13_icc_extra.
+
+(* (6) worst case: "a buffer of tj3JPEGBufSize bytes is always sufficient" is refuted already by
+   the entropy-coded data of a 128x128 grayscale image at quality 100 (adversarial 8x8 block tiled) *)
+Theorem C13_worstcase_sufficient_refuted : ~ worstcase_sufficient_full.
+Proof. exact worstcase_refuted. Qed.
+Print Assumptions C13_worstcase_sufficient_refuted.
+
+Theorem C13_worstcase_witness : exists w h blocks bytes,
+  Z.of_nat (length blocks) = (PAD w 8 / 8) * (PAD h 8 / 8) /\ forallb valid_block blocks = true /\
+  scan_bytes blocks = Some bytes /\ tj3JPEGBufSize w h tjsamp_gray < bytes.
+Proof. exact worstcase_witness. Qed.
+Print Assumptions C13_worstcase_witness.
